@@ -43,6 +43,10 @@ PY = "/venv/bin/python"
 WORK = os.path.join(VERIF, ".work")
 # evidence goes to /verif/evidence unless a test driver (tools/seedtest.sh) redirects it
 EVIDENCE_DIR = os.environ.get("VERIF_EVIDENCE_DIR") or os.path.join(VERIF, "evidence")
+# replay files go to /verif/replays unless a test driver redirects them (concurrent runs of one property)
+REPLAY_DIR = os.environ.get("VERIF_REPLAY_DIR") or os.path.join(VERIF, "replays")
+
+
 def modelrun_path(prop_id):
     return os.path.join(VERIF, "bin", "modelrun_" + prop_id.lower())
 
@@ -601,7 +605,7 @@ def run_check(prop_id, tier="quick", seed=0, replay=None):
     prop = importlib.import_module(prop_id.lower())
     os.makedirs(WORK, exist_ok=True)
     os.makedirs(EVIDENCE_DIR, exist_ok=True)
-    os.makedirs(os.path.join(VERIF, "replays"), exist_ok=True)
+    os.makedirs(REPLAY_DIR, exist_ok=True)
     if replay:
         return run_replay(prop, replay)
 
@@ -844,7 +848,7 @@ def run_check(prop_id, tier="quick", seed=0, replay=None):
     n = 0
     for v in inputs[:5]:
         n += 1
-        path = os.path.join(VERIF, "replays", "%s-%d.json" % (prop_id, n))
+        path = os.path.join(REPLAY_DIR, "%s-%d.json" % (prop_id, n))
         found = v.get("failing_input_found", True)
         rep = {"property": prop_id, "kind": "input", "case": v["case"], "expected": v["expected"],
                "observed": v["observed"], "property_oracle": v["oracle"], "seed": seed, "tier": tier,
@@ -854,7 +858,7 @@ def run_check(prop_id, tier="quick", seed=0, replay=None):
         lines.append("VIOLATION property=%s replay=%s%s" % (prop_id, path, "" if found else " no-failing-input-found"))
     if obls:
         n += 1
-        path = os.path.join(VERIF, "replays", "%s-%d.json" % (prop_id, n))
+        path = os.path.join(REPLAY_DIR, "%s-%d.json" % (prop_id, n))
         found_input = next((v for v in inputs if v.get("failing_input_found", True)), None)
         rep = {"property": prop_id, "kind": "obligation",
                "obligations_no_longer_checking": [v["obligation"] for v in obls],
